@@ -22,8 +22,9 @@ def run(tier, seed):
     devs = [1, 1, 1, 1, 2, 3]
     jobs = [([], devs[w]) for w in range(W)]
     for i in range(ncase):
-        spec = gen.gen_spec(rng, smax=9 if tier == "quick" else 24, kind="unichain", denom=rng.choice([2, 4, 8]), R=rng.choice([1, 5, 100]),
-                            init=(i % 3 == 1), initpol=False)
+        invest = (i % 5 == 4)
+        spec = gen.gen_spec(rng, smax=9 if tier == "quick" else 24, kind="invest" if invest else "unichain", S=(rng.randint(4, 8) if invest else None),
+                            denom=rng.choice([2, 4, 8]), R=rng.choice([8, 40] if invest else [1, 5, 100]), init=(i % 3 == 1), initpol=False)
         S = spec_size(spec)
         targeted = (i % 5 == 2)
         if targeted:
@@ -34,6 +35,10 @@ def run(tier, seed):
         ops = jobs[i % W][0]
         ops.append({"op": "problem", "id": f"p{i}", "spec": {k: v for k, v in spec.items() if not k.startswith("_")}, "_tags": spec["_tags"], "_spec": spec})
         ops.append(new)
+        if invest or i % 4 == 1:
+            # several solve() calls on one solver: what the last call returns (gain, values, policy) is what the property speaks about
+            for k_ in ([1, 2] if invest else [rng.randint(1, 3)]):
+                ops.append({"op": "solve", "sid": f"s{i}", "k": k_, "_partial": True})
         ops.append({"op": "solve", "sid": f"s{i}", "k": 4000})
     # targeted cases need the bias: tabulate first (cheap pure-python path: build tables from the spec directly)
     for ops, d in jobs:
@@ -67,6 +72,9 @@ def run(tier, seed):
             elif op["op"] == "new":
                 new = op
             elif op["op"] == "solve":
+                if op.get("_partial"):
+                    res.count("partial-call-before-the-converging-one")
+                    continue
                 res.evaluations += 1
                 di = core.parse_resp(i)
                 case = {"new": {k: v for k, v in new.items() if not k.startswith("_")}, "devices": d, "problem_line": cur_line, "tags": tags}
